@@ -47,8 +47,8 @@ EXC_WIDTH = {
     ("dns.rdtypes.ANY.LOC.LOC._to_wire", "arg 6 of '!BBBBIII'"): "0x80000000 +/- milliseconds with |degrees| <= 180 checked by _check_coordinate_list: within 32 bits",
     ("dns.rdtypes.IN.APL.APLItem.to_wire", "arg 3 of '!HBB'"): "address is at most 16 octets (or validated max_length=127) and asserted < 128 before the negation bit is OR-ed in",
     ("dns.rdtypes.IN.APL.APLItem.to_wire", "self.prefix"): "validated by _as_int(prefix, 0, 32|128) or _as_uint8 on every constructor branch",
-    ("dns.rdtypes.util.Bitmap.to_wire", "arg 1 of '!BB'"): "Bitmap.__init__ rejects window > 256... and from_rdtypes derives windows from 16-bit types (<= 255)",
-    ("dns.rdtypes.util.Bitmap.to_wire", "arg 2 of '!BB'"): "Bitmap.__init__ rejects bitmaps longer than 32 octets",
+    ("dns.rdtypes.util.Bitmap.to_wire", "arg 1 of '!BB'"): "Bitmap.__init__ refuses windows above 255 - decided below (bitmap-window-bound), not assumed",
+    ("dns.rdtypes.util.Bitmap.to_wire", "arg 2 of '!BB'"): "Bitmap.__init__ refuses bitmaps longer than 32 octets - decided below (bitmap-window-bound)",
     ("dns.rdtypes.svcbbase._StringList.to_wire", "arg 1 of '!B'"): "each id is validated with max_length=255 in _StringList.__init__",
     ("dns.rdtypes.svcbbase.SVCBBase._to_wire", "arg 1 of '!H'"): "parameter keys are ParamKey values validated to 16 bits",
     ("dns.rdtypes.svcbbase.MandatoryParam.to_wire", "arg 1 of '!H'"): "keys are validated ParamKey values (16 bits)",
@@ -642,6 +642,25 @@ def run(model, rep, tier):
     check_validators(model, rep, "R-05.5")
     rep.assume("constructor validators (Rdata._as_*) are the only way fields are set (C07 R-07.2); float fields are outside the interval evaluator")
     rep.share(model, "C01", {"R-01.5", "R-01.7"}, "R-05.7", "every embedded name of a record is rendered through Name.to_styled_text with the style's origin")
+    # the two Bitmap widths excepted above rest on Bitmap.__init__'s refusals: decide them (an earlier version of this table quoted `window > 256` and waved it through)
+    bi = model.func("dns.rdtypes.util.Bitmap.__init__")
+    lim = {}
+    for n in ast.walk(bi.node):
+        if isinstance(n, ast.If) and any(isinstance(b, ast.Raise) for b in n.body):
+            for a in atoms(normalise_compare(n.test)):
+                try:
+                    if a[1] == ">" and a[2].lstrip("-").isdigit():
+                        lim[a[0]] = min(lim.get(a[0], 10 ** 9), int(a[2]))
+                    elif a[1] == ">=" and a[2].lstrip("-").isdigit():
+                        lim[a[0]] = min(lim.get(a[0], 10 ** 9), int(a[2]) - 1)
+                except ValueError:
+                    pass
+    wvar = next((e.id for l_ in ast.walk(bi.node) if isinstance(l_, ast.For) and isinstance(l_.target, ast.Tuple) for e in l_.target.elts[:1] if isinstance(e, ast.Name)), None)
+    bvar = next((e.id for l_ in ast.walk(bi.node) if isinstance(l_, ast.For) and isinstance(l_.target, ast.Tuple) for e in l_.target.elts[1:2] if isinstance(e, ast.Name)), None)
+    rep.check(wvar is not None and lim.get(wvar, 10 ** 9) <= 255 and lim.get(f"len({bvar})", 10 ** 9) <= 255, "R-05.1", bi.qualname, where(bi, bi.node),
+              f"windows above {lim.get(wvar)} and bitmaps longer than {lim.get(f'len({bvar})')} octets are refused: both fit the '!BB' header",
+              f"Bitmap.__init__ accepts windows up to {lim.get(wvar)} (and bitmaps up to {lim.get(f'len({bvar})')} octets): window 256 passes the constructor and Bitmap.to_wire then raises struct.error "
+              "packing it into one octet", stmt="bitmap-window-bound")
     # ---------------------------------------------------------------- R-05.8
     multibit = {}
     for ci in model.classes.values():
@@ -837,6 +856,8 @@ def run(model, rep, tier):
 
 
 WITNESSES = [
+    {"id": "c05-bitmap-window-256-accepted", "rule": "R-05.1", "file": "dns/rdtypes/util.py", "expect": "fires",
+     "old": "            if window > 255:", "new": "            if window > 256:"},
     {"id": "c05-nsec3-padding-modulus-4", "rule": "R-05.12", "file": "dns/rdtypes/ANY/NSEC3.py", "expect": "fires",
      "old": "        if len(next) % 8 != 0:\n            next += b\"=\" * (8 - len(next) % 8)", "new": "        if len(next) % 4 != 0:\n            next += b\"=\" * (4 - len(next) % 4)"},
     {"id": "c05-sshfp-reader-single-token", "rule": "R-05.9", "file": "dns/rdtypes/ANY/SSHFP.py", "expect": "fires",
